@@ -192,6 +192,7 @@ struct HLive : Harness {
       case T_KMEANS: { deg = D_DUP_POINTS; n = (int)wr.range(3, 14); pp = (int)wr.range(1, 3); ncomp = (int)wr.range(1, 6); p.seti("distinct", (int)wr.range(1, std::max(1, std::min(n, 5)))); p.seti("init", (int)wr.below(4)); p.seti("dup_layout", (int)wr.below(4)); if (ncomp > n) ncomp = n; break; }
       case T_NELDER: { deg = wr.chance(0.6) ? D_FLAT : D_NPC_GT_RANK; pp = (int)wr.range(1, 5); break; }
     }
+    if (deg == D_TIED && tier == "quick") p.seti("machine.nproc", 1);   // capped runs with thread creation per sweep cost tens of seconds: thorough tier only
     if (deg == D_TIED) { n = wr.chance(0.5) ? 8 : 4; pp = (int)wr.range(2, n == 8 ? 3 : 2); rank = pp; ncomp = (int)wr.range(1, pp); }
     p.seti("routine", rt); p.seti("deg", deg); p.seti("rows", n); p.seti("cols", pp); p.seti("ncomp", ncomp); p.seti("rank", rank); p.seti("ycols", ny);
     p.seti("scaling", rt == T_CPCA ? (int)wr.range(0, 3) : (int)wr.range(-1, 3)); p.seti("yscaling", (int)wr.range(0, 1));
